@@ -5,7 +5,7 @@
    RequestPacket/ResponsePacket.ReadFrom).  Each is applied to bytes of the frame only, as the repaired code does.
    Go integer widths are written out (uint32 / uint16 arithmetic as `mod`). *)
 From Coq Require Import List NArith Bool.
-From MV Require Import Lib.Bytes Lib.Dec Lib.Seg Gen.ProtoConsts Gen.CodecSrc.
+From MV Require Import Lib.Bytes Lib.Dec Lib.Seg Model.CodecParams.
 Import ListNotations.
 Open Scope N_scope.
 
